@@ -330,7 +330,20 @@ pub fn run_batch<H: Harness>(h: &H, cfg: &BatchCfg) -> BatchResult<H::Sc> {
                     };
                     let o = {
                         let _g = crate::abortguard::running(&sc);
-                        h.run(&sc, None, false)
+                        std::panic::catch_unwind(std::panic::AssertUnwindSafe(|| h.run(&sc, None, false)))
+                    };
+                    let o = match o {
+                        Ok(o) => o,
+                        Err(p) => {
+                            // a panic that escaped the harness itself: never a verdict
+                            *herr.lock().unwrap() = Some(format!(
+                                "harness panicked outside the simulated run: {} (scenario {})",
+                                panic_text(&p),
+                                serde_json::to_string(&sc).unwrap_or_default()
+                            ));
+                            stop.store(true, Ordering::SeqCst);
+                            break;
+                        }
                     };
                     agg.absorb(&o);
                     if agg.samples.len() < 2 && o.nontrivial && i >= n_pre {
@@ -370,6 +383,16 @@ pub fn run_batch<H: Harness>(h: &H, cfg: &BatchCfg) -> BatchResult<H::Sc> {
     }
 }
 
+pub fn panic_text(p: &Box<dyn std::any::Any + Send>) -> String {
+    if let Some(s) = p.downcast_ref::<&str>() {
+        s.to_string()
+    } else if let Some(s) = p.downcast_ref::<String>() {
+        s.clone()
+    } else {
+        "<non-string payload>".into()
+    }
+}
+
 /// Minimises a failing scenario: a candidate is accepted only if the same clause of
 /// the same property fails (under its own or one of a few fresh schedule seeds).
 pub fn shrink<H: Harness>(h: &H, sc: &H::Sc, v: &Violation) -> (H::Sc, Violation) {
@@ -399,7 +422,15 @@ pub fn shrink<H: Harness>(h: &H, sc: &H::Sc, v: &Violation) -> (H::Sc, Violation
                 }
                 let o = {
                     let _g = crate::abortguard::running(&c);
-                    h.run(&c, None, false)
+                    std::panic::catch_unwind(std::panic::AssertUnwindSafe(|| h.run(&c, None, false)))
+                };
+                // a candidate on which the harness itself panics is simply not taken
+                let o = match o {
+                    Ok(o) => o,
+                    Err(p) => {
+                        eprintln!("note: harness panicked on a shrink candidate (skipped): {}", panic_text(&p));
+                        continue;
+                    }
                 };
                 if let Some(cv) = o.violation {
                     if cv.signature() == sig {
